@@ -55,6 +55,47 @@ def trig_axioms(sp):
   return ax
 
 
+def _radiation_replay(ctx, name, conf, model, syms):
+  """A satisfiable radiation query is only reported after the REAL functions violate the clause at concrete inputs: the solver's values for
+  the phases / position / constants (trig functions are uninterpreted in the query, so its model may be spurious) plus a deterministic sample."""
+  from dinosaur import radiation as rad
+  rng = np.random.default_rng(0)
+  cands = []
+  if model is not None:
+    try:
+      cands.append([_fval(model, _r(t.a.reshape(-1)[0])) for t in syms])
+    except Exception:  # noqa: BLE001
+      pass
+  for _ in range(400):
+    S = rng.uniform(0.5, 2000.0)
+    cands.append([rng.uniform(-7, 7), rng.uniform(-7, 7), rng.uniform(-7, 7), rng.uniform(-np.pi / 2, np.pi / 2), S, rng.uniform(0, 0.99) * S])
+  for phi, syn, lon, lat, S, dS in cands:
+    if not (S > 0 and 0 <= dS < S):
+      continue
+    ot = rad.OrbitalTime(phi, syn)
+    lo = jnp.asarray([lon]); la = jnp.asarray([lat])
+    fl = float(rad.get_radiation_flux(ot, lo, la, S, dS)[0]); sa = float(rad.get_solar_sin_altitude(phi, syn, lo, la)[0])
+    irr = float(rad.get_direct_solar_irradiance(phi, S, dS)); nf = float(rad.get_normalized_radiation_flux(ot, lo, la, S, dS)[0])
+    tol = 1e-12 * (S + dS)
+    bad = []
+    if not (fl >= 0): bad.append('flux < 0')
+    if not (fl <= S + dS + tol): bad.append('flux > S + dS')
+    if sa <= 0 and fl != 0: bad.append('flux != 0 with the sun at or below the horizon')
+    if sa > 1e-12 and not fl > 0: bad.append('flux = 0 with the sun above the horizon')
+    if abs(sa) > 1 + 1e-12: bad.append('|sin altitude| > 1')
+    if not (S - dS - tol <= irr <= S + dS + tol): bad.append('irradiance outside [S - dS, S + dS]')
+    if not (-1e-12 <= nf <= 1 + 1e-12): bad.append('normalised flux outside [0, 1]')
+    f2 = float(rad.get_radiation_flux(rad.OrbitalTime(phi + 2 * np.pi, syn), lo, la, S, dS)[0]); f3 = float(rad.get_radiation_flux(rad.OrbitalTime(phi, syn + 2 * np.pi), lo, la, S, dS)[0])
+    if abs(f2 - fl) > 1e-9 * (S + dS) or abs(f3 - fl) > 1e-9 * (S + dS): bad.append('flux not 2 pi periodic in a phase')
+    if bad:
+      inp = dict(orbital_phase=phi, synodic_phase=syn, longitude=lon, latitude=lat, S=S, dS=dS)
+      ctx.violation(name, dict(config=conf, kind='radiation', what=bad), dict(inputs=inp, flux=fl, sin_altitude=sa, irradiance=irr, normalized_flux=nf),
+                    f'{name}: real functions at {inp}: {"; ".join(bad)} (flux={fl}, sin altitude={sa}, irradiance={irr})')
+      return True
+  ctx.error(name, 'query satisfiable but the real functions satisfy the clause at the solver model and on 400 sampled inputs (inconclusive)')
+  return False
+
+
 def task_radiation(ctx):
   from dinosaur import radiation as rad
   ctx.encoded(rad.get_radiation_flux, rad.get_solar_sin_altitude, rad.get_hour_angle, rad.equation_of_time, rad.get_declination,
@@ -74,10 +115,17 @@ def task_radiation(ctx):
   S, d = S0.a.reshape(-1)[0], dS.a.reshape(-1)[0]
   pre = trig_axioms(sp) + [S > 0, d >= 0, d < S]
   conf = dict(symbolic='orbital phase, synodic phase, longitude, latitude, solar constant S, variation dS (0 <= dS < S)')
+  syms = [phi, syn, lon, lat, S0, dS]
+
+  def _dec(name, config, pre_, bad_, *a, **k):
+    ok_, model_ = decide(ctx, name, config, pre_, bad_, *a, **k)
+    if not ok_ and model_ is not None:
+      _radiation_replay(ctx, name, config, model_, syms)
+    return ok_, model_
   # lemma A: |sin(altitude)| <= 1  (from sin^2+cos^2 = 1 on latitude and declination, |cos(hour angle)| <= 1)
-  decide(ctx, 'radiation.sin_altitude_in_unit_interval', conf, pre, z3.Or(sav > 1, sav < -1))
+  _dec('radiation.sin_altitude_in_unit_interval', conf, pre, z3.Or(sav > 1, sav < -1))
   # lemma B: 0 < S - dS <= irradiance <= S + dS
-  decide(ctx, 'radiation.irradiance_between_aphelion_and_perihelion_values', conf, pre, z3.Or(irv < S - d, irv > S + d, irv <= 0))
+  _dec('radiation.irradiance_between_aphelion_and_perihelion_values', conf, pre, z3.Or(irv < S - d, irv > S + d, irv <= 0))
   # flux through cut points sigma = sin(altitude) in [-1,1], iota = irradiance in [S-dS, S+dS]
   sg, io = z3.Real('sigma'), z3.Real('iota')
   fl_c = z3.substitute(fl, (sav, sg), (irv, io))
@@ -85,15 +133,15 @@ def task_radiation(ctx):
   if left:
     ctx.error('radiation.cut', f'flux depends on {left} other than through sin(altitude) and irradiance')
   prec = [sg >= -1, sg <= 1, io >= S - d, io <= S + d, S > 0, d >= 0, d < S]
-  decide(ctx, 'radiation.flux_nonnegative', conf, prec, fl_c < 0, 'QF_NRA')
-  decide(ctx, 'radiation.flux_at_most_perihelion_solar_constant', conf, prec, fl_c > S + d, 'QF_NRA')
-  decide(ctx, 'radiation.flux_zero_iff_sun_at_or_below_horizon', conf, prec, z3.Or(z3.And(sg <= 0, fl_c != 0), z3.And(sg > 0, fl_c <= 0)), 'QF_NRA')
+  _dec('radiation.flux_nonnegative', conf, prec, fl_c < 0, 'QF_NRA')
+  _dec('radiation.flux_at_most_perihelion_solar_constant', conf, prec, fl_c > S + d, 'QF_NRA')
+  _dec('radiation.flux_zero_iff_sun_at_or_below_horizon', conf, prec, z3.Or(z3.And(sg <= 0, fl_c != 0), z3.And(sg > 0, fl_c <= 0)), 'QF_NRA')
   # normalised flux <= 1
   sp.obligations.clear()
   nirr = None
   # normalised irradiance and flux: substitute the same cut point for sin(altitude)
   nf_c = z3.substitute(nf, (sav, sg))
-  decide(ctx, 'radiation.normalized_flux_in_unit_interval', conf, pre + [sg >= -1, sg <= 1], z3.Or(nf_c > 1, nf_c < 0))
+  _dec('radiation.normalized_flux_in_unit_interval', conf, pre + [sg >= -1, sg <= 1], z3.Or(nf_c > 1, nf_c < 0))
   # periodicity in both phases: shifting a phase by 2 pi changes every trig argument by a multiple of 2 pi
   two_pi = Q(2 * np.pi)
   for which in ('orbital', 'synodic'):
@@ -282,11 +330,114 @@ def task_held_suarez_state(ctx, cfg, levels, lname):
     ctx.error('held_suarez.equilibrium_temperature_at_least_floor', f'lower bound {lo.min()}')
 
 
+def _fval(model, t):
+  v = model.eval(t, model_completion=True)
+  try:
+    return float(v.as_fraction())
+  except Exception:  # noqa: BLE001
+    return float(v.approx(30).as_fraction())
+
+
+def task_solar_radiation_class(ctx, cfg, scale_name, normalized):
+  """SolarRadiation (the object users call) on a grid with its own longitude offset / spacing:
+     (1) its node coordinates are the grid's documented ones: lon_i = 2 pi i / nlon + longitude_offset, lat_j = asin(latitude node),
+         computed here from the specification (numpy Gauss-Legendre / equiangular formulas), not from the code;
+     (2) for EVERY model time t, radiation_flux(t) at node (i, j) is get_radiation_flux(time_to_orbital_time(t), lon_i, lat_j, S, dS)
+         with the solar constants of the specs (normalised variant: divided by S + dS) - decided with t symbolic;
+     together with the unit-function clauses this gives the bounds / horizon / periodicity statements at the class level."""
+  import datetime
+  from dinosaur import radiation as rad, primitive_equations as pe, scales
+  ctx.encoded(rad.SolarRadiation.__init__, rad.SolarRadiation.radiation_flux, rad.SolarRadiation.normalized, rad.SolarRadiation.solar_hour_angle,
+              rad.SolarRadiation.time_to_orbital_time, rad.get_radiation_flux)
+  scale = {'default': scales.DEFAULT_SCALE, 'si': scales.Scale(1 * scales.units.m, 1 * scales.units.s, 1 * scales.units.kg, 1 * scales.units.degK)}[scale_name]
+  specs = pe.PrimitiveEquationsSpecs.from_si(scale=scale)
+  coords = models.make_coords(cfg, [0, 0.4, 1.0])
+  grid = coords.horizontal
+  ctor = rad.SolarRadiation.normalized if normalized else rad.SolarRadiation
+  sr = ctor(coords, specs, datetime.datetime(1983, 11, 2, 6, 40))
+  conf = dict(grid=grids.cfg_name(cfg), scale=scale_name, normalized=normalized)
+  nlon, nlat = cfg['nlon'], cfg['nlat']
+  # (1) specification of the node coordinates
+  lon_spec = 2 * np.pi * np.arange(nlon) / nlon + cfg.get('offset', 0.0)
+  spacing = cfg.get('spacing', 'gauss')
+  if spacing == 'gauss':
+    mu = np.polynomial.legendre.leggauss(nlat)[0]
+  elif spacing == 'equiangular':
+    mu = np.sin(-np.pi / 2 + (np.arange(nlat) + 0.5) * np.pi / nlat)
+  else:
+    mu = np.sin(np.linspace(-np.pi / 2, np.pi / 2, nlat))
+  lat_spec = np.arcsin(mu)
+  LON, LAT = np.meshgrid(lon_spec, lat_spec, indexing='ij')
+  ns = grid.nodal_shape
+  lon_c = np.asarray(sr.lon)[:nlon, :nlat] if np.ndim(sr.lon) == 2 else None
+  lat_c = np.asarray(sr.lat)[:nlon, :nlat] if np.ndim(sr.lat) == 2 else None
+  ok1 = lon_c is not None and lat_c is not None and lon_c.shape == LON.shape and np.abs(lon_c - LON).max() <= 1e-12 and np.abs(lat_c - LAT).max() <= 1e-12
+  ctx.clause('solar_radiation.node_coordinates_are_the_grids_own', 'discharged' if ok1 else 'failed', config=conf, queries=0, elements=int(LON.size))
+  if not ok1:
+    err = None if lon_c is None or lon_c.shape != LON.shape else float(max(np.abs(lon_c - LON).max(), np.abs(lat_c - LAT).max()))
+    ctx.violation('solar_radiation.node_coordinates_are_the_grids_own', dict(config=conf, kind='coordinates'), dict(max_abs_error=err),
+                  f'SolarRadiation uses node coordinates that differ from the grid specification (longitude_offset={cfg.get("offset", 0.0)}) by {err}')
+    return
+  # (2) flux(t) with t symbolic
+  S = float(specs.nondimensionalize(rad.TOTAL_SOLAR_IRRADIANCE)); dS = float(specs.nondimensionalize(rad.SOLAR_IRRADIANCE_VARIATION))
+  if normalized:
+    S, dS = S / (S + dS), dS / (S + dS)
+  sp = TermSpace()
+  t = TermArr.variables(sp, 't', ())
+  lonp = np.zeros(ns); latp = np.zeros(ns); lonp[:nlon, :nlat] = LON; latp[:nlon, :nlat] = LAT
+
+  def impl(t):
+    return sr.radiation_flux(t)
+
+  def spec(t):
+    return rad.get_radiation_flux(sr.time_to_orbital_time(t), lon_c if ns == LON.shape else lonp, lat_c if ns == LON.shape else latp, S, dS)
+  a = Interp(sp).run(jax.make_jaxpr(impl)(0.0), t)[0]
+  b = Interp(sp).run(jax.make_jaxpr(spec)(0.0), t)[0]
+  aa = a.a.reshape(ns)[:nlon, :nlat].reshape(-1); bb = b.a.reshape(ns)[:nlon, :nlat].reshape(-1)
+  tv = t.a.reshape(-1)[0]
+  year = float(specs.nondimensionalize(1 * scales.units.year))
+  tol = Q(1e-9 * (S + dS))
+  ndiff = 0; nq = 0; bad_model = None
+  for x, y in zip(aa, bb):
+    x = _r(x); y = _r(y)
+    if x.eq(y):
+      continue
+    ndiff += 1
+    v, model = smt.check_z3([tv >= Q(-100 * year), tv <= Q(100 * year), z3.Or(x - y > tol, y - x > tol)], 'QF_UFNIRA', 20000, want_model=True)
+    nq += 1
+    if v != 'unsat':
+      bad_model = (v, model)
+      break
+  name = 'solar_radiation.flux_is_unit_function_at_the_grid_nodes_for_every_time'
+  if bad_model is None:
+    ctx.clause(name, 'discharged', config=conf, queries=nq, elements=int(aa.size), syntactically_equal=int(aa.size) - ndiff)
+    return
+  v, model = bad_model
+  tt = _fval(model, tv) if v == 'sat' else 0.37 * year
+  # replay on the real class: a handful of times including the solver's
+  worst = 0.0; wt = None
+  for tc in (tt, 0.0, 0.123 * year, -3.7 * year):
+    got = np.asarray(jax.jit(impl)(tc))[:nlon, :nlat]; want = np.asarray(jax.jit(spec)(tc))[:nlon, :nlat]
+    e = float(np.abs(got - want).max())
+    if e > worst:
+      worst, wt = e, tc
+  if worst > 1e-9 * (S + dS):
+    ctx.clause(name, 'failed', config=conf, queries=nq)
+    ctx.violation(name, dict(config=conf, kind='flux'), dict(time=wt, max_abs_error=worst, S=S, dS=dS),
+                  f'SolarRadiation.radiation_flux(t={wt:.6g}) differs from S(phase) * max(0, sin altitude) at the grid nodes by {worst:.3e}')
+  else:
+    ctx.clause(name, 'inconclusive', config=conf, queries=nq)
+    ctx.error(name, f'solver verdict {v} but the real functions agree on replay (trig abstraction too coarse)')
+
+
 def make_tasks(tier, seed):
   LS = models.level_sets(seed)
   tasks = [dict(name='radiation', fn='task_radiation', kw={}),
            dict(name='orbital-time-default', fn='task_orbital_time', kw=dict(scale_name='default')),
            dict(name='orbital-time-si', fn='task_orbital_time', kw=dict(scale_name='si')),
+           dict(name='solar-class-offset', fn='task_solar_radiation_class', kw=dict(cfg=dict(M=3, L=4, nlon=8, nlat=5, offset=0.37), scale_name='default', normalized=False)),
+           dict(name='solar-class-neg-offset-fast-normalized', fn='task_solar_radiation_class', kw=dict(cfg=dict(M=3, L=4, nlon=8, nlat=5, offset=-3.141592653589793, impl='fast', base=4), scale_name='si', normalized=True)),
+           dict(name='solar-class-equiangular', fn='task_solar_radiation_class', kw=dict(cfg=dict(M=2, L=3, nlon=6, nlat=6, spacing='equiangular', offset=0.5235987755982988), scale_name='default', normalized=False)),
            dict(name='held-suarez-rates', fn='task_held_suarez_rates', kw={}),
            dict(name='held-suarez-state', fn='task_held_suarez_state', kw=dict(cfg=dict(M=3, L=4, nlon=8, nlat=5), levels=LS['dy3'].tolist(), lname='dy3'))]
   if tier != 'quick':
